@@ -90,6 +90,7 @@ def handleMerge (j : Json) : R Json := do
   return jObj [
     ("model", match m with | some l => hitsToJson l | none => Json.null),
     ("prov", match impl with | some l => b (allProvenanceOK env hits l) | none => Json.null),
+    ("covered", match impl with | some l => b (allCovered hits l) | none => Json.null),
     ("input_sorted", b (sortedByStart hits)),
     ("nontrivial", b (match m with | some l => l.length < hits.length | none => false))]
 
